@@ -93,16 +93,35 @@ Section C04.
                 (exists l, recover_load enc_env dec_env enc_meta dec_meta chunk s = RLoad l /\ In (ts, id) l)).
   Proof. intros. apply partial_files_harmless; assumption. Qed.
 
-  (* temp -> rename atomicity of AioFile.dump *)
+  (* temp -> rename atomicity of AioFile.dump: stopped after any number of its
+     commands, everything but the temp file and the target is untouched and the
+     target holds what it held before or the complete data (then the temp name
+     is gone); at the end it holds the complete data *)
   Theorem C04_dump_atomic : forall data p t r s n,
     data <> [] -> p <> PTmp t -> fget s (PTmp t) = None ->
     let st := asteps dexec prog_next n s (dump chunk data p t (Ret r)) in
     (forall q, q <> PTmp t -> q <> p -> fget (fst st) q = fget s q) /\
+    (fget (fst st) p = fget s p \/ (fget (fst st) p = Some data /\ fget (fst st) (PTmp t) = None)) /\
     match snd st with
     | Ret _ => fget (fst st) p = Some data /\ fget (fst st) (PTmp t) = None
-    | Do _ _ => fget (fst st) p = fget s p
+    | Do _ _ => True
     end.
   Proof. intros. apply dump_atomic; assumption. Qed.
+
+  (* Abort with unwinding: at any point every operation in flight gets an
+     exception instead of its next command and its except/finally clauses run
+     (cleanup_of: the `finally: os.close(fd)` of AioFile.dump).  The file system
+     afterwards is the one a kill at that point leaves, so every statement
+     above about `fst (crashed sch s0 specs)` holds for the aborted state too. *)
+  Theorem C04_abort_equals_crash : forall s0 (specs : list dspec) sch,
+    let out := crashed sch s0 specs in
+    abort_all (fst out) (snd out) = fst out /\
+    (forall th c, In th (snd out) -> In c (th_cleanup th) -> exists t, c = CClose t).
+  Proof.
+    intros s0 specs sch out. split; [apply abort_equals_crash|].
+    intros th c _ Hc. unfold th_cleanup in Hc. destruct (th_cur th) as [[o p]|]; [|destruct Hc].
+    eapply cleanup_closes. exact Hc.
+  Qed.
 End C04.
 
 Print Assumptions C04_crash_safe.
@@ -110,6 +129,7 @@ Print Assumptions C04_acked_not_lost.
 Print Assumptions C04_load_never_blocked.
 Print Assumptions C04_partial_files_harmless.
 Print Assumptions C04_dump_atomic.
+Print Assumptions C04_abort_equals_crash.
 
 (* the hypotheses are satisfiable: the executable number codec, two concrete threads *)
 Theorem C04_numcodec_instance : forall sch,
